@@ -102,7 +102,8 @@ def required_cells(tier):
     return (['kind:' + k for k in KINDS] + ['history:same-object-twice', 'history:switch-AB', 'history:switch-BA', 'history:missing-submodule-then-package', 'history:echo-then-last-value', 'history:annotate-then-read',
             'history:ordered-pair', 'history:random', 'history:fresh-object', 'module-dict-checks', 'baseline-children',
             'session-options:none', 'session-options:given', 'mode:native', 'mode:pytest'] +
-            ['history:' + h for h, _ in PATCH_HISTORIES])
+            ['history:' + h for h, _ in PATCH_HISTORIES] +
+            ['history:module-installs-underscore:2', 'history:module-installs-underscore:4'])
 
 
 REQ_PACKAGES = ['json', 'email', 'xml', 'logging', 'http', 'urllib', 'concurrent', 'importlib', 'unittest', 'collections',
@@ -438,6 +439,79 @@ def probe_module_patch(ctx):
         sys.modules.pop(modname, None)
 
 
+UNDERSCORE_MODULE = '''import builtins
+builtins._ = lambda s: 'T:' + s        # what gettext.install() does
+T = []
+def first():
+    """
+    Example:
+        >>> T.append("first")
+        >>> print(_('a'))
+        T:a
+    """
+def echo():
+    """
+    Example:
+        >>> T.append("echo")
+        >>> if 1:
+        ...     6 * 7
+        42
+    """
+def second():
+    """
+    Example:
+        >>> T.append("second")
+        >>> print(_('b'))
+        T:b
+    """
+'''
+
+
+def probe_module_installs_underscore(ctx):
+    """the module under test installs a translation function as builtins._ when it is imported (gettext.install): every
+    doctest of the module finds it, whichever ran before, also after a doctest whose echoed value went through
+    sys.displayhook"""
+    import builtins
+    modname = 'iu_%d_%d_zz' % (ctx.seed, ctx.shard)
+    path = os.path.join(ctx.tmp, modname + '.py')
+    with open(path, 'w') as f:
+        f.write(UNDERSCORE_MODULE)
+    had = getattr(builtins, '_', None)
+    try:
+        for hist in (['first', 'second'], ['first', 'echo', 'second', 'first'], ['echo', 'first', 'echo', 'second']):
+            for mode in ('native', 'pytest'):
+                sys.modules.pop(modname, None)
+                if hasattr(builtins, '_'):
+                    del builtins._
+                objs = {e.callname: e for e in load(path)}
+                ok = True
+                for step, name in enumerate(hist):
+                    ob = observe(objs[name], 'B', mode)
+                    ctx.evaluation()
+                    ctx.event('history_runs_compared')
+                    if ob[0] != 'passed':
+                        ctx.violation('history-dependent', 'the module under test installs builtins._ when it is imported; doctest '
+                                      '%s must pass whatever ran before it, after %r (mode %s) it gives %s, logged output %r'
+                                      '\n--- module ---\n%s' % (name, hist[:step], mode, ob[0], ob[1], UNDERSCORE_MODULE),
+                                      {'probe': 'module-installs-underscore'}, history=hist[:step + 1])
+                        ok = False
+                        break
+                if ok:
+                    ctx.cell('history:module-installs-underscore:%d' % len(hist))
+                    ctx.nontrivial((tuple(hist), mode))
+    finally:
+        if had is None:
+            if hasattr(builtins, '_'):
+                del builtins._
+        else:
+            builtins._ = had
+        try:
+            os.unlink(path)
+        except OSError:
+            pass
+        sys.modules.pop(modname, None)
+
+
 def run_shard(ctx):
     warnings.simplefilter('ignore')
     n = ctx.pick(64, 800)
@@ -445,12 +519,17 @@ def run_shard(ctx):
         check_module(ctx, idx, ctx.case_seed(idx))
     if ctx.shard == 6 % ctx.nshards:
         probe_module_patch(ctx)
+    if ctx.shard == 7 % ctx.nshards:
+        probe_module_installs_underscore(ctx)
 
 
 def replay(case, ctx):
     warnings.simplefilter('ignore')
     if case.get('probe') == 'module-patch':
         probe_module_patch(ctx)
+        return
+    if case.get('probe') == 'module-installs-underscore':
+        probe_module_installs_underscore(ctx)
         return
     check_module(ctx, case['index'], case['case_seed'])
 
